@@ -397,6 +397,10 @@ impl<'a> Model<'a> {
             }
             _ => {}
         }
+        // a conformant broker sent only valid packets: nothing may be rejected as invalid
+        if res == OpRes::Err(ErrKind::InvalidPacket) && !self.trs[tr].hostile && !self.tr_has_raw(tr) {
+            self.bad("C04", "C04/valid-inbound-rejected", format!("op {op} ({kind:?}) returned InvalidPacket although the broker sent only valid packets"));
+        }
         // refused requests must leave no trace on the wire
         if let Some(r) = rec.request {
             if self.req_matched[r] {
@@ -454,6 +458,10 @@ impl<'a> Model<'a> {
     }
 
     /// poll()/recv() is waiting for input: everything the client owes must be on the wire.
+    fn tr_has_raw(&self, tr: usize) -> bool {
+        self.v.trace.inbound.iter().any(|p| p.tr == tr && p.packet.is_none())
+    }
+
     fn on_idle(&mut self, tr: usize, op: usize) {
         self.stats.idle_points += 1;
         let t = &self.trs[tr];
